@@ -11,17 +11,19 @@ What is modelled (capi/src/io.rs, capi/src/public.rs):
   `chewing_free` REMOVES the entry of the address (after `fix: chewing_free forgets …`; `stepStale` below keeps the
   earlier behaviour — look up only — for the recorded refutation) and rebuilds a `CString` / a `Vec<c_ushort>` of the
   registered kind.  `live` is the ghost heap: blocks handed out and not yet released, with their TRUE kind.
-* `cand_iter`, `interval_iter`, `kbcompat_iter` — `Peekable<Box<dyn Iterator>>` over data the iterator OWNS
-  (a collected `Vec`, a counter): `PeekVec` = items left + Peekable's one-element cache.
-* `userphrase_iter : Option<Peekable<Entries<'static>>>` — BORROWS the user dictionary (`'static` obtained from
-  the raw context pointer): `UIter.epoch` is the generation of the dictionary storage it points into; `Ctx.epoch`
-  is bumped by every exported function the translator classifies as possibly mutating the user dictionary
-  (`Gen/CApi.lean: dictMutFns`).  Touching the INNER iterator (a `peek`/`next` with an empty cache) with a stale
-  epoch is `ub "userphrase_iter"`; a cached entry is an owned clone and is returned without any access.
-
-Abstraction (stated in the MANIFEST): `mutate` over-approximates — a key that learns nothing does not free
-anything; the model flags the language-level hazard (use of a borrow after a `&mut` use of its owner), which the
-memory checker can only confirm when storage was really replaced.
+* `cand_iter`, `interval_iter`, `kbcompat_iter`, `userphrase_iter` — `Peekable` over data the iterator OWNS (a
+  collected `Vec`; for the keyboard types a FUSED counter): `PeekVec` = items left + Peekable's one-element cache.
+  Once exhausted a `PeekVec` stays exhausted — this is what `Vec::into_iter` guarantees and what `.fuse()` adds to
+  `(0..).map_while(..)` since `fix: chewing_kbtype_String stops at the end of the enumeration`; the un-fused `u8`
+  counter of the earlier code is `KbOld` below (recorded refutation: the 256th pull overflows).
+* `userphrase_iter : Option<Peekable<vec::IntoIter<(Vec<Syllable>, Phrase)>>>` — since `fix:
+  chewing_userphrase_enumerate takes a snapshot …` the entries are collected when the enumeration starts; `step`
+  treats it like the other three.  The code BEFORE that fix stored `Peekable<Entries<'static>>`, a BORROW of the user
+  dictionary (`'static` obtained from the raw context pointer); `stepBorrow` keeps that behaviour for the recorded
+  refutation (finding F22): `UIter.epoch` is the generation of the dictionary storage the iterator was created over
+  and `Ctx.epoch` is bumped by every exported function the translator classifies as possibly mutating the user
+  dictionary (`Gen/CApi.lean: dictMutFns`); touching the INNER iterator (a `peek`/`next` with an empty cache) with a
+  stale epoch was `ub "userphrase_iter"`.  Both fields are ghost state: `step` writes them and never reads them.
 -/
 namespace Chewing.Owned
 
@@ -58,14 +60,15 @@ def PeekVec.next (p : PeekVec) : PeekVec × Bool :=
   | some b => ({ p with peeked := none }, b)
   | none => if 0 < p.rest then ({ p with rest := p.rest - 1 }, true) else (p, false)
 
-/-- the user-phrase iterator: a `PeekVec` whose inner iterator points into generation `epoch` of the dictionary -/
+/-- the user-phrase iterator: a `PeekVec`; `epoch` (ghost, read by `stepBorrow` only) = the generation of the
+dictionary at `chewing_userphrase_enumerate` -/
 structure UIter where
   epoch : Nat
   it : PeekVec
   deriving DecidableEq, Repr
 
 structure Ctx where
-  /-- generation of the user-dictionary storage -/
+  /-- generation of the user-dictionary storage (ghost, read by `stepBorrow` only) -/
   epoch : Nat := 0
   uiter : Option UIter := none
   cand : Option PeekVec := none
@@ -128,7 +131,7 @@ def register (c : Ctx) (addr : Nat) (k : Kind) : Ctx :=
 
 def bool2res (b : Bool) : Res := if b then 1 else 0
 
-/-- inner access of the user-phrase iterator is allowed only on the generation it was created over -/
+/-- code before the F22 fix: inner access of the user-phrase iterator was valid only on the generation it was created over -/
 def uFresh (c : Ctx) (u : UIter) : Bool := u.epoch == c.epoch
 
 /-- `chewing_free(addr)`.  `removes` = the registry entry is removed (current code) or only looked up (old code). -/
@@ -149,25 +152,21 @@ def step (c : Ctx) : Op → Outcome (Ctx × Res)
   | .mutate => .ok ({ c with epoch := c.epoch + 1 }, 0)
   | .other => .ok (c, 0)
   | .reset => .ok ({ c with uiter := none, cand := none, intv := none, kbt := none }, 0)
-  -- user phrases -------------------------------------------------------------------------------------------
+  -- user phrases (collected Vec: a snapshot taken at enumerate) -------------------------------------------
   | .upEnumerate n => .ok ({ c with uiter := some { epoch := c.epoch, it := PeekVec.new n } }, 0)
   | .upHasNext =>
     match c.uiter with
     | none => .ok (c, 0)
     | some u =>
-      if u.it.peeked.isNone && !uFresh c u then .ub "userphrase_iter"
-      else
-        let (it', b) := u.it.peek
-        if b then .ok ({ c with uiter := some { u with it := it' } }, 1)
-        else .ok ({ c with uiter := none }, 0)
+      let (it', b) := u.it.peek
+      if b then .ok ({ c with uiter := some { u with it := it' } }, 1)
+      else .ok ({ c with uiter := none }, 0)
   | .upGet =>
     match c.uiter with
     | none => .ok (c, -1)
     | some u =>
-      if u.it.peeked.isNone && !uFresh c u then .ub "userphrase_iter"
-      else
-        let (it', b) := u.it.next
-        .ok ({ c with uiter := some { u with it := it' } }, if b then 0 else -1)
+      let (it', b) := u.it.next
+      .ok ({ c with uiter := some { u with it := it' } }, if b then 0 else -1)
   -- candidates (collected Vec) ------------------------------------------------------------------------------
   | .candEnumerate sel n => .ok (if sel then { c with cand := some (PeekVec.new n) } else c, 0)
   | .candHasNext sel =>
@@ -193,7 +192,7 @@ def step (c : Ctx) : Op → Outcome (Ctx × Res)
     match c.intv with
     | none => .ok (c, 0)
     | some p => let (p', b) := p.next; .ok ({ c with intv := some p' }, bool2res b)
-  -- keyboard types (iterator owns a counter) ---------------------------------------------------------------
+  -- keyboard types (iterator owns a fused counter) ---------------------------------------------------------
   | .kbEnumerate n => .ok ({ c with kbt := some (PeekVec.new n) }, 0)
   | .kbHasNext =>
     match c.kbt with
@@ -216,6 +215,35 @@ def stepOld (c : Ctx) : Op → Outcome (Ctx × Res)
   | .free addr => freeStep false c addr
   | op => step c op
 
+/-- the code before `fix: chewing_userphrase_enumerate takes a snapshot …` (finding F22): identical, except that the
+stored user-phrase iterator borrowed the dictionary — pulling from it after a possibly-mutating call was undefined -/
+def stepBorrow (c : Ctx) : Op → Outcome (Ctx × Res)
+  | .upHasNext =>
+    match c.uiter with
+    | none => .ok (c, 0)
+    | some u => if u.it.peeked.isNone && !uFresh c u then .ub "userphrase_iter" else step c .upHasNext
+  | .upGet =>
+    match c.uiter with
+    | none => .ok (c, -1)
+    | some u => if u.it.peeked.isNone && !uFresh c u then .ub "userphrase_iter" else step c .upGet
+  | op => step c op
+
+/-- the results of a defined history -/
+def Outcome.results : Outcome (Ctx × List Res) → Option (List Res)
+  | .ok (_, rs) => some rs
+  | .ub _ => none
+
+/-- run a history under a given step function -/
+def runWith (st : Ctx → Op → Outcome (Ctx × Res)) : Ctx → List Op → Outcome (Ctx × List Res)
+  | c, [] => .ok (c, [])
+  | c, op :: ops =>
+    match st c op with
+    | .ub s => .ub s
+    | .ok (c', r) =>
+      match runWith st c' ops with
+      | .ub s => .ub s
+      | .ok (c'', rs) => .ok (c'', r :: rs)
+
 /-- run a history; the index of the first undefined step and its site, or the final state and the results -/
 def run : Ctx → List Op → Outcome (Ctx × List Res)
   | c, [] => .ok (c, [])
@@ -227,23 +255,29 @@ def run : Ctx → List Op → Outcome (Ctx × List Res)
       | .ub s => .ub s
       | .ok (c'', rs) => .ok (c'', r :: rs)
 
-/-- does the call use the stored user-phrase iterator -/
-def Op.usesU : Op → Bool
-  | .upHasNext => true
-  | .upGet => true
-  | _ => false
+/-! ### the un-fused keyboard-type counter of the earlier code
 
-/-- `stale` = a possibly-mutating call happened since the last `chewing_userphrase_enumerate` -/
-def staleAfter (stale : Bool) : Op → Bool
-  | .upEnumerate _ => false
-  | .mutate => true
-  | _ => stale
+`(0..).map_while(|id| KeyboardLayoutCompat::try_from(id).ok())` over `u8`, not fused: `RangeFrom<u8>::next` computes
+`start + 1` before it yields `start`, and `MapWhile` keeps pulling after it has answered `None`. -/
 
-/-- the protocol discipline of the partial theorem: every `has_next`/`get` of the user-phrase enumeration is
-preceded by an `enumerate` with no possibly-mutating call in between -/
-def disciplined : Bool → List Op → Bool
-  | _, [] => true
-  | stale, op :: ops => (!op.usesU || !stale) && disciplined (staleAfter stale op) ops
+/-- `RangeFrom<u8>` inside `MapWhile`: `start` = the next id; `valid` ids are `0 .. valid-1` -/
+structure KbOld where
+  start : Nat
+  valid : Nat
+  deriving DecidableEq, Repr
+
+/-- one pull of the inner iterator: `none` = the process aborts ("attempt to add with overflow", debug build; a release
+build wraps to 0 and the enumeration starts again), else the new state and `is_some()` -/
+def KbOld.pull (k : KbOld) : Option (KbOld × Bool) :=
+  if k.start + 1 ≥ 256 then none else some ({ k with start := k.start + 1 }, decide (k.start < k.valid))
+
+/-- `n` pulls (what `n` calls of `chewing_kbtype_String[_static]` do: Peekable's cache is empty between them) -/
+def KbOld.pulls : Nat → KbOld → Option (KbOld × List Bool)
+  | 0, k => some (k, [])
+  | n + 1, k =>
+    match k.pull with
+    | none => none
+    | some (k', b) => (KbOld.pulls n k').map fun r => (r.1, b :: r.2)
 
 /-- allocator's side of the heap contract at one step: the allocator never returns an address that is still live
 (nor NULL).  `chewing_free` has NO precondition: any pointer may be passed, any number of times. -/
